@@ -31,6 +31,13 @@ CLAIMED = {
             "Full property for Merge3Merger._three_way and _lca_multi_way: values are unbounded integers standing for "
             "arbitrary hashable values, <= 4/6 LCAs, both allow_overriding_lca settings.",
             "values compared only with == / in"),
+    "C19": ("text merge conflict recording (kernel)",
+            "The real Merge3Merger.text_merge together with the (pure-python, lifted) merge3 package on symbolic texts: "
+            "BASE of <= 2/3 lines, THIS and OTHER derived by per-line edit scripts with symbolic line contents; a text "
+            "conflict is recorded exactly when the three-way merge has conflicting regions, helper files get exactly "
+            "BASE/OTHER/THIS, clean merges produce the region-wise merged text, and the unchanged-side / identical-change "
+            "laws hold. Real trees, helper files on disk and conflict resolution are outside.",
+            "the compiled patience matcher is replaced by the alignment of the edit scripts; trees / transform are stubs"),
     "C24": ("tag reconciliation kernel",
             "Decides the reconciliation sentence for the real _reconcile_tags with symbolic tag names and revision ids "
             "(<= 2/3 tags per dictionary), overwrite on/off, arbitrary selector. Persistence of tag dictionaries (bencode, "
